@@ -3,7 +3,8 @@ import gens, common
 from common import Failure
 from refids import ref_id, ref_decode, all_ids, num_cells, s_patterns, MAXV
 
-LEAN_MODULES = ['A5.Props.C05']
+LEAN_MODULES = ['A5.Props.C05', 'A5.Props.SrcTie.Codec']
+SRC_TIE = True
 LEVEL = 'proof'
 EXPLANATION = ('Lean theorems over symbolic S (every position of a resolution at once), every face/segment, r = 0..29: serialize total, '
                'range [1,2^64), get_resolution/deserialize recover the cell, injectivity, re-encoding of every valid id, rejection of unfit positions, '
